@@ -397,6 +397,7 @@ type vConnRun struct {
 	uc0       int // UnLockCount before the action in progress
 	orderBad  bool
 	usedNewDb bool
+	chained   bool
 	// reg: who a client id belongs to, by the script alone: the last connection that announced it, until that connection
 	// closes or announces another id
 	reg map[int]*vConnC
@@ -1538,8 +1539,73 @@ func (x *vConnRun) pickCause(c *vConnC) byte {
 	return []byte{'c', 'c', 'e', 's'}[x.r.Intn(4)]
 }
 
+// chain: one client id across 2..3 reconnects, with requests of the FIRST connection still queued across all of them: each
+// later connection gets 0..2 of their replies (the first one makes it adopt the first connection's proxy) before it closes
+// in turn; both orders of "old connection closes" / "new connection announces the id"; wills in the mix.
+// hops / replies / order fixed = the corpus case; -1 = drawn.
+func (x *vConnRun) chain(hops, replies, order int) {
+	r := x.r
+	x.chained = true
+	x.nextCid++
+	cid := 100 + x.nextCid
+	o := x.open('b', false)
+	first := x.open('b', false)
+	x.init(first, cid)
+	nreq := 3 + r.Intn(3)
+	for i := 0; i < nreq && x.dead == ""; i++ {
+		h := x.request(o, 'L', x.newKey(), 0, 0, 60)
+		x.toks[h].long, x.toks[h].pin = true, true
+		x.request(first, 'L', x.toks[h].key, 0, 2+2*i, 60) // replies (timeouts) arrive two seconds apart
+	}
+	if hops < 0 {
+		hops = 2 + r.Intn(2)
+	}
+	prev := first
+	for hop := 0; hop < hops && x.dead == ""; hop++ {
+		ord := order
+		if ord < 0 {
+			ord = r.Intn(2)
+		}
+		// a will only on a connection that is taken over before it closes (a will answered at once on a connection that closes
+		// while it is still registered was the stack-overflow defect: such lifetimes belong to the child-process cases)
+		if ord == 1 && r.Intn(2) == 0 {
+			w := &vConnWill{typ: []string{"L0", "Um"}[r.Intn(2)], imm: true, key: x.newKey(), target: 999999, tok: x.nextTok}
+			x.nextTok++
+			x.will(prev, w)
+		}
+		var next *vConnC
+		if ord == 0 {
+			// the old connection goes first, then the client comes back
+			x.close(prev, x.pickCause(prev))
+			next = x.open('b', false)
+			x.init(next, cid)
+		} else {
+			// half-open: the client is back before the server has ended the old connection
+			next = x.open('b', false)
+			x.init(next, cid)
+			x.close(prev, []byte{'s', 'c'}[r.Intn(2)])
+		}
+		k := replies
+		if k < 0 {
+			k = r.Intn(3)
+		}
+		for i := 0; i < 2*k && x.dead == ""; i++ {
+			x.tick()
+		}
+		prev = next
+	}
+	for i := 0; i < 3 && x.dead == ""; i++ {
+		x.tick()
+	}
+	x.out.stat(fmt.Sprintf("chain-hops%d", hops))
+}
+
 func (x *vConnRun) step() {
 	r := x.r
+	if !x.chained && x.nticks < 12 && len(x.conns) < 5 && r.Intn(25) == 0 {
+		x.chain(-1, -1, -1)
+		return
+	}
 	free := x.openConns(func(c *vConnC) bool { return c.blocked == 0 && c.nested == nil })
 	all := x.openConns(func(c *vConnC) bool { return c.nested == nil })
 	n := r.Intn(100)
@@ -2101,7 +2167,12 @@ func init() {
 			for i := 0; i < 6 && x.dead == ""; i++ {
 				x.tick()
 			}
-		})
+		},
+		// 11: two reconnects under one id while requests of the first connection are still queued: the second connection gets
+		// one reply (and adopts the first connection's proxy), closes, the third connection must get the next ones
+		func(x *vConnRun) { x.chain(2, 1, 0) },
+		// 12: the same, half-open order (the new connection announces the id before the old one is ended)
+		func(x *vConnRun) { x.chain(3, 1, 1) })
 }
 
 func vConnChild(seed int64, idx int, parent *vOut) {
